@@ -8,4 +8,12 @@ ENTRIES = {
   technique="bounded symbolic execution (engine A, z3): real ersatz source on symbolic one-hot tensors, unbounded integer positions",
   text="Every feasible path of the real substitute/insert/delete/multisubstitute/randomize (+_validate_input, one_hot_encode, random_one_hot) is executed on symbolic sequence/motif characters and unbounded symbolic integer positions; per path z3 proves returned => span inside & output == string-level edit & input unchanged, raised => span not inside. All inputs inside the bounds (A<=4 quick/6 thorough, L<=5/6, w<=3/4, B<=2/3) are covered, positions are unbounded.",
   note=COMMON_NOTE + " insert() rejecting starts in (L-w, L] and randomize() rejecting end==L are accepted as stricter-than-required."),
+ "C03": dict(
+  technique="bounded symbolic execution (engine A, z3): real predict() with symbolic batch size and an uninterpreted row-wise model",
+  text="The real predict() runs with batch_size an unbounded symbolic Int >= 1 (the solver enumerates every effective batch size 1..n, all b >= n being one path), fully symbolic X/args and a model whose per-row output is an uninterpreted function; z3 proves each output row i == F(X[i], args[.][i]) in order, eval mode and gradients off at every forward, inputs untouched, misaligned args rejected. n <= 6 quick / 12 thorough, 0-3 args, tensor/tuple/list outputs.",
+  note=COMMON_NOTE + " The model is any deterministic row-wise function (uninterpreted); batch-coupled layers are represented only by the training-flag observation."),
+ "C15": dict(
+  technique="bounded symbolic execution (engine A, z3): real utils encode/decode/reverse-complement/chunk/unchunk on symbolic bytes, tensor contents, chunk size and overlap",
+  text="one_hot_encode/_fast_one_hot_encode/characters run on strings whose bytes are symbolic (0..127): accepted <=> all bytes in alphabet+ignore, encoding is the exact indicator, characters() inverts it (ignored -> N); reverse_complement tensor form is the involutive complement-reverse and agrees with the string form for all strings over ACGTN up to the bound; unchunk(chunk(X)) reproduces every position covered by a complete chunk for symbolic contents and every (size, overlap) with 1, 2, 3 and more chunks (size/overlap are symbolic Ints enumerated by the solver).",
+  note=COMMON_NOTE + " ASCII bytes only; string length <= 3 quick / 4 thorough; sequence-length sets listed in evidence."),
 }
